@@ -16,6 +16,9 @@ BASES = [[], [], [], [['lock', 1]], [['user', 2], ['lock', 1]], [['lock', 1], ['
 EXTRAS = [[], [], [['user', 5]], [['lock', 6]], [['user', 5], ['user', 7]], [['lock', 6], ['user', 5]], [['user', 8], ['lock', 6]]]
 
 
+RAISES = ['exc', 'exc', 'base', 'kbd']      # Exception subclass / custom BaseException / KeyboardInterrupt-like
+
+
 def gen_call(rng, case, tags, depth=0, kinds=None):
     cls = case['cls']
     kinds = kinds or ['ev'] * 11 + ['trig'] * 2 + ['add_transition'] * 2 + ['add_states'] + ['set_state'] * 2 + ['remove_model'] * 2
@@ -33,7 +36,7 @@ def gen_call(rng, case, tags, depth=0, kinds=None):
             call['script'][k] = sc
         if rng.random() < 0.2:
             k = str(rng.randrange(3))
-            call['script'].setdefault(k, {'sub': [], 'raise': False})['raise'] = True
+            call['script'].setdefault(k, {'sub': [], 'raise': False})['raise'] = rng.choice(RAISES)
     elif kind == 'add_transition':
         call['args'] = [rng.choice(['go', 'back']), rng.choice(names + ['D']), rng.choice(names + ['D'])]
     elif kind == 'add_states':
@@ -89,7 +92,7 @@ def add_dynamic(rng, case, tags):
                     call = {'tag': tags[0], 'kind': 'dyn_ev', 'args': [j, rng.choice(locked.EVENTS[case['cls']])], 'script': {}}
                     if rng.random() < 0.3:
                         sub = gen_call(rng, case, tags, depth=1)
-                        call['script'][str(rng.randrange(3))] = {'sub': [sub], 'raise': rng.random() < 0.2}
+                        call['script'][str(rng.randrange(3))] = {'sub': [sub], 'raise': rng.choice(RAISES) if rng.random() < 0.2 else False}
                 else:
                     call = {'tag': tags[0], 'kind': 'dyn_ev', 'args': [j, rng.choice(['to_A', 'to_B'])], 'script': {},
                             'unjudged': True}
@@ -287,6 +290,11 @@ def process(items):
         for c, _top in locked.all_calls(p.case):
             d = st.setdefault('call_kind', {})
             d[c['kind']] = d.get(c['kind'], 0) + 1
+            for sc in (c.get('script') or {}).values():
+                if sc.get('raise'):
+                    d = st.setdefault('scripted_raise_kind', {})
+                    kk = 'exc' if sc['raise'] is True else sc['raise']
+                    d[kk] = d.get(kk, 0) + 1
         if len(ex.samples) < 2 and nontrivial(p.run) and not fs:
             ex.samples.append({'case': dict(p.case, schedule=p.run.schedule), 'events': len(p.run.events)})
         ex.failures += fs
@@ -317,7 +325,8 @@ CORPUS = [
      'threads': [[_c(1, 'ev', [0, 'go'])]]},
     {'cls': 'flat', 'base': [], 'nmodels': 2, 'ignore': False, 'queued': False, 'extras': {'0': [['user', 7]], '1': [['lock', 6]]},
      'threads': [[_c(1, 'ev', [0, 'go'], {'1': {'sub': [_c(2, 'ev', [1, 'go'])], 'raise': False}})],
-                 [_c(3, 'ev', [0, 'go'], {'2': {'sub': [], 'raise': True}}), _c(4, 'ev', [1, 'back'])]]},
+                 [_c(3, 'ev', [0, 'go'], {'2': {'sub': [], 'raise': 'base'}}), _c(4, 'ev', [1, 'back'])],
+                 [_c(5, 'ev', [1, 'go'], {'1': {'sub': [], 'raise': 'kbd'}})]]},
     {'cls': 'hsm', 'base': [['user', 2], ['lock', 1]], 'nmodels': 1, 'ignore': True, 'queued': False, 'extras': {'0': []},
      'threads': [[_c(1, 'add_states', ['D']), _c(2, 'add_transition', ['go', 'C', 'D'])],
                  [_c(3, 'ev', [0, 'to_C']), _c(4, 'ev', [0, 'go'])], [_c(5, 'set_state', ['B', 0])]]},
@@ -513,7 +522,7 @@ class C06(runner.Check):
             'machine_context lists containing a mutex, model_context lists, 1-3 shared models): 2-4 threads x 1-3 calls '
             '(events by attribute and by model.trigger, add_transition, add_states, set_state, remove_model, add_model incl. '
             're-adding a removed model with and without model_context, events on a currently unregistered model as unjudged steps, re-entrant '
-            'calls from callbacks two levels deep, raising callbacks), run under a deterministic controller; schedules: '
+            'calls from callbacks two levels deep, callbacks raising an Exception subclass / a custom BaseException / a KeyboardInterrupt subclass), run under a deterministic controller; schedules: '
             'every schedule with at most 2 (thorough: 3) preemptions of 2-thread x <=2-call programs, and random '
             'schedules (switch probability 0.15-1.0) of the larger ones; non-trivial = contention observed (a thread '
             'blocked at a lock, or calls of two threads open at once); distinct = different program or event sequence')
@@ -592,7 +601,8 @@ class C06(runner.Check):
             'a dynamic (removed / re-added) model is used by one thread only, through top-level calls, so that whether an event hits an unregistered model is determined by program order; racing add_model / remove_model against events on the same model from other threads is not generated',
             'the update of model_context_map inside add_model / remove_model has no yield point of its own: it is placed in the scheduling step of the call\'s last __enter__ (harness granularity), in the trace and in the model schedule',
             'may_* helpers and dispatch are outside the statement\'s call list',
-            'user supplied contexts do not raise in __enter__/__exit__ and user mutexes are non re-entrant',
+            'user supplied contexts do not raise in __enter__/__exit__ (a context manager whose __exit__ raises breaks the with-protocol it is part of; judged outside the statement, which speaks of raising CALLBACKS) and user mutexes are non re-entrant',
+            'the Lean model\'s `ret raised` is kind-agnostic (ExitStack unwinds on every BaseException); the harness varies the kind of exception raised by callbacks and probes release from another thread for every kind',
             'exhaustive enumeration is bounded by the number of preemptions (2 quick / 3 thorough) and capped per program; the theorems are unbounded',
         ]
 
